@@ -1,4 +1,227 @@
-import Rngs.Model.Xoshiro
+/-
+  C13 — `test_timer` returns `Ok(r)` only with a usable `r ≥ 1`, and otherwise a `TimerError`
+  that names a condition which actually holds.
+
+  `Rngs.Spec.TimerTest` states the documented failure conditions as predicates on the list of
+  timer readings (probes = groups of four readings after the initial one; probes 100..399 are
+  counted).  Here: for every generator state and every reading list on which `test_timer` does
+  not run out of readings (`= some …`; the real timer never runs out),
+
+  * `ok_sound`   : `Ok(r)` ⟹ 1 ≤ r ≤ 128, r·bitlen(mean) ≥ 128, and no failure condition holds;
+  * `err_sound`  : `Err(e)` ⟹ the condition named by `e` holds;
+  * `complete`   : some failure condition holds ⟹ `Err(e)` with a condition that holds;
+  * `setRounds_of_testTimer` : the idiom `set_rounds(test_timer()?)` never trips `assert!(rounds > 0)`;
+  * `readings_consumed` : an `Ok` run read the timer exactly 1 + 4·400 = 1601 times.
+
+  The model reflects the code after the fix `abe6ce0` (TinyVariations is `delta_sum < 2·300`);
+  `old_threshold_defect` records why the fix was needed.
+-/
+import Rngs.Lib.TimerTest
 namespace Rngs.C13
-theorem placeholder : True := trivial
+open Rngs Rngs.Spec Rngs.Spec.TimerTest Rngs.TimerTestLib
+
+/-! ## the rounds table and the thresholds (on an arbitrary accumulator) -/
+
+/-- `bitlen m` is the number of binary digits of `m` -/
+theorem bitlen_digits (m : Nat) (h : 0 < m) : 2 ^ (bitlen m - 1) ≤ m ∧ m < 2 ^ bitlen m :=
+  bitlen_spec m h
+
+/-- rows 2..15 of the lookup table: every entry `r` is in 1..128 and `r·bitlen(mean) ≥ 128` -/
+theorem rounds_table (m : Nat) (h2 : 2 ≤ m) (h16 : m < 16) :
+    1 ≤ Jitter.LOG2_LOOKUP.getD m 0 ∧ Jitter.LOG2_LOOKUP.getD m 0 ≤ 128 ∧
+      128 ≤ Jitter.LOG2_LOOKUP.getD m 0 * bitlen m :=
+  roundsOf_table m h2 h16
+
+/-- the formula `(128 + L − 1) / L` for `L = bitlen(mean) ≥ 5` (mean ≥ 16): between 1 and 26, the
+    `as u8` cast loses nothing, and `r·L ≥ 128` -/
+theorem rounds_formula (L : Nat) (h5 : 5 ≤ L) :
+    1 ≤ ((64 * 2 + L - 1) / L) % 256 ∧ ((64 * 2 + L - 1) / L) % 256 ≤ 26 ∧
+      128 ≤ ((64 * 2 + L - 1) / L) % 256 * L :=
+  roundsOf_formula L h5
+
+/-- the estimate computed from any `delta_sum ≥ 600` is usable -/
+theorem roundsOf_usable (deltaSum : Nat) (h : 2 * Jitter.TESTLOOPCOUNT ≤ deltaSum) :
+    1 ≤ Jitter.roundsOf deltaSum ∧ Jitter.roundsOf deltaSum ≤ 128 ∧
+      128 ≤ Jitter.roundsOf deltaSum * bitlen (deltaSum / Jitter.TESTLOOPCOUNT) :=
+  roundsOf_sound deltaSum h
+
+/-- why the `TinyVariations` threshold must be `2·300`: with the old threshold (`< 300`) a
+    `delta_sum` in 300..599 reached the table row for mean 1, which is 0 -/
+theorem old_threshold_defect : ∀ ds, 300 ≤ ds → ds < 600 → Jitter.roundsOf ds = 0 := by
+  intro ds h1 h2
+  have : ds / Jitter.TESTLOOPCOUNT = 1 := by
+    unfold Jitter.TESTLOOPCOUNT; omega
+  unfold Jitter.roundsOf
+  rw [this]; rfl
+
+/-- `verdict = Ok(r)`: none of the four thresholds is exceeded, and `r` is the estimate -/
+theorem verdict_ok_sound (p : Jitter.Probe) (r : Nat) (h : Jitter.verdict p = .ok r) :
+    ¬ p.timeBackwards > 3 ∧ ¬ p.deltaSum < 2 * Jitter.TESTLOOPCOUNT ∧
+      ¬ p.countMod > Jitter.TESTLOOPCOUNT * 9 / 10 ∧ ¬ p.countStuck > Jitter.TESTLOOPCOUNT * 9 / 10 ∧
+      r = Jitter.roundsOf p.deltaSum :=
+  verdict_ok p r h
+
+/-- `verdict = Err(e)`: the threshold that `e` names is exceeded (and `e` is never `NoTimer`) -/
+theorem verdict_error_sound (p : Jitter.Probe) (e : Jitter.TimerError) (h : Jitter.verdict p = .error e) :
+    match e with
+    | .NoTimer => False
+    | .CoarseTimer => p.countMod > Jitter.TESTLOOPCOUNT * 9 / 10
+    | .NotMonotonic => p.timeBackwards > 3
+    | .TinyVariations => p.deltaSum < 2 * Jitter.TESTLOOPCOUNT
+    | .TooManyStuck => p.countStuck > Jitter.TESTLOOPCOUNT * 9 / 10 :=
+  verdict_error p e h
+
+/-- `verdict` returns `Ok` exactly when no threshold is exceeded -/
+theorem verdict_ok_iff_no_threshold (p : Jitter.Probe) :
+    (∃ r, Jitter.verdict p = .ok r) ↔
+      (¬ p.timeBackwards > 3 ∧ ¬ p.deltaSum < 2 * Jitter.TESTLOOPCOUNT ∧
+        ¬ p.countMod > Jitter.TESTLOOPCOUNT * 9 / 10 ∧ ¬ p.countStuck > Jitter.TESTLOOPCOUNT * 9 / 10) :=
+  verdict_ok_iff p
+
+/-- `Ok(r)` from `verdict` always has `1 ≤ r ≤ 128` -/
+theorem verdict_ok_rounds (p : Jitter.Probe) (r : Nat) (h : Jitter.verdict p = .ok r) :
+    1 ≤ r ∧ r ≤ 128 ∧ 128 ≤ r * bitlen (p.deltaSum / Jitter.TESTLOOPCOUNT) := by
+  obtain ⟨_, b, _, _, hr⟩ := verdict_ok p r h
+  rw [hr]
+  exact roundsOf_sound p.deltaSum (by omega)
+
+/-! ## `test_timer` on the readings -/
+
+/-- what the loop accumulates is what the specification counts: when all 400 probes pass the
+    zero checks, `test_timer`'s answer is `verdict` of the specification's quantities -/
+theorem testTimer_is_verdict_of_spec (j : Jitter.Rng) (rs : List U64) (res : Except Jitter.TimerError Nat)
+    (j' : Jitter.Rng) (rs' : List U64) (h : (Jitter.testTimer j).run rs = some ((res, j'), rs'))
+    (hz : ¬ ZeroReading rs) (hd : ¬ ZeroDelta rs) :
+    ∃ P : Jitter.Probe, res = Jitter.verdict P ∧ P.timeBackwards = backwards rs ∧
+      P.countMod = mod100 rs ∧ P.deltaSum = deltaSum rs ∧ P.countStuck = stuckCount rs := by
+  obtain ⟨t0, rest, _, hcase⟩ := testTimer_some j rs res j' rs' h
+  rcases hcase with ⟨e, hs, _⟩ | ⟨P, hs, hres, _, _⟩
+  · have := scan_error_spec t0 rs e hs
+    rcases scan_error _ _ _ _ _ hs with ⟨he, pr, hpr, hzz⟩ | ⟨he, pr, hpr, hzz⟩
+    · exact absurd ⟨pr, hpr, hzz⟩ hz
+    · exact absurd ⟨pr, hpr, (delta_zero_iff pr).mpr hzz⟩ hd
+  · obtain ⟨_, _, a, b, c, d⟩ := scan_ok_spec t0 rs P hs
+    exact ⟨P, hres, a, b, c, d⟩
+
+/-- **`Ok(r)` is sound.** -/
+theorem ok_sound (j : Jitter.Rng) (rs : List U64) (r : Nat) (j' : Jitter.Rng) (rs' : List U64)
+    (h : (Jitter.testTimer j).run rs = some ((.ok r, j'), rs')) :
+    1 ≤ r ∧ r ≤ 128 ∧ 128 ≤ r * bitlen (mean rs) ∧
+      ¬ ZeroReading rs ∧ ¬ ZeroDelta rs ∧ ¬ Backwards rs ∧ ¬ Tiny rs ∧ ¬ Mod100 rs ∧ ¬ Stuck rs := by
+  obtain ⟨t0, rest, _, hcase⟩ := testTimer_some j rs _ j' rs' h
+  rcases hcase with ⟨e, _, hres⟩ | ⟨P, hs, hres, _, _⟩
+  · cases hres
+  · obtain ⟨hz, hd, a, b, c, d⟩ := scan_ok_spec t0 rs P hs
+    obtain ⟨v1, v2, v3, v4, hr⟩ := verdict_ok P r hres.symm
+    obtain ⟨r1, r2, r3⟩ := roundsOf_sound P.deltaSum (by omega)
+    rw [← hr] at r1 r2 r3
+    rw [c] at r3
+    rw [a] at v1; rw [c] at v2; rw [b] at v3; rw [d] at v4
+    refine ⟨r1, r2, r3, hz, hd, v1, ?_, v3, v4⟩
+    unfold Tiny mean
+    rw [Nat.div_lt_iff_lt_mul (by decide)]
+    exact v2
+
+/-- **`Err(e)` is sound**: the error names a condition that actually holds. -/
+theorem err_sound (j : Jitter.Rng) (rs : List U64) (e : Jitter.TimerError) (j' : Jitter.Rng) (rs' : List U64)
+    (h : (Jitter.testTimer j).run rs = some ((.error e, j'), rs')) : holds e rs := by
+  obtain ⟨t0, rest, _, hcase⟩ := testTimer_some j rs _ j' rs' h
+  rcases hcase with ⟨e', hs, hres⟩ | ⟨P, hs, hres, _, _⟩
+  · cases hres
+    exact scan_error_spec t0 rs e hs
+  · obtain ⟨_, _, a, b, c, d⟩ := scan_ok_spec t0 rs P hs
+    have hv := verdict_error P e hres.symm
+    cases e with
+    | NoTimer => exact absurd hv id
+    | CoarseTimer => exact Or.inr (by unfold Mod100; rw [← b]; exact hv)
+    | NotMonotonic => unfold holds Backwards; rw [← a]; exact hv
+    | TinyVariations =>
+      unfold holds Tiny mean
+      rw [Nat.div_lt_iff_lt_mul (by decide), ← c]; exact hv
+    | TooManyStuck => unfold holds Stuck; rw [← d]; exact hv
+
+/-- **Completeness**: whenever a documented failure condition holds, `test_timer` returns `Err`,
+    and with an error whose condition holds. -/
+theorem complete (j : Jitter.Rng) (rs : List U64) (res : Except Jitter.TimerError Nat) (j' : Jitter.Rng)
+    (rs' : List U64) (h : (Jitter.testTimer j).run rs = some ((res, j'), rs'))
+    (hf : ZeroReading rs ∨ ZeroDelta rs ∨ Backwards rs ∨ Tiny rs ∨ Mod100 rs ∨ Stuck rs) :
+    ∃ e, res = .error e ∧ holds e rs := by
+  rcases res with e | r
+  · exact ⟨e, rfl, err_sound j rs e j' rs' h⟩
+  · obtain ⟨_, _, _, n1, n2, n3, n4, n5, n6⟩ := ok_sound j rs r j' rs' h
+    rcases hf with f | f | f | f | f | f
+    · exact absurd f n1
+    · exact absurd f n2
+    · exact absurd f n3
+    · exact absurd f n4
+    · exact absurd f n5
+    · exact absurd f n6
+
+/-- `Ok` exactly when no failure condition holds -/
+theorem ok_iff_no_failure (j : Jitter.Rng) (rs : List U64) (res : Except Jitter.TimerError Nat)
+    (j' : Jitter.Rng) (rs' : List U64) (h : (Jitter.testTimer j).run rs = some ((res, j'), rs')) :
+    (∃ r, res = .ok r) ↔ ¬ AnyFailure rs := by
+  constructor
+  · rintro ⟨r, rfl⟩ hf
+    obtain ⟨e, he, _⟩ := complete j rs _ j' rs' h hf
+    cases he
+  · intro hn
+    rcases res with e | r
+    · have := err_sound j rs e j' rs' h
+      exfalso; apply hn
+      unfold AnyFailure
+      cases e with
+      | NoTimer => exact Or.inl this
+      | CoarseTimer =>
+        rcases this with t | t
+        · exact Or.inr (Or.inl t)
+        · exact Or.inr (Or.inr (Or.inr (Or.inr (Or.inl t))))
+      | NotMonotonic => exact Or.inr (Or.inr (Or.inl this))
+      | TinyVariations => exact Or.inr (Or.inr (Or.inr (Or.inl this)))
+      | TooManyStuck => exact Or.inr (Or.inr (Or.inr (Or.inr (Or.inr this))))
+    · exact ⟨r, rfl⟩
+
+/-- the documented idiom `rng.set_rounds(rng.test_timer()?)` (also used by `JitterRng::new`)
+    never trips `assert!(rounds > 0)` -/
+theorem setRounds_of_testTimer (j : Jitter.Rng) (rs : List U64) (r : Nat) (j' : Jitter.Rng) (rs' : List U64)
+    (h : (Jitter.testTimer j).run rs = some ((.ok r, j'), rs')) :
+    Jitter.setRounds j' r = some { j' with rounds := r } ∧ r ≤ 255 := by
+  obtain ⟨h1, h2, _⟩ := ok_sound j rs r j' rs' h
+  refine ⟨?_, by omega⟩
+  unfold Jitter.setRounds
+  simp [show r > 0 from h1]
+
+/-- an `Ok` run (indeed every run that reaches the checks after the loop) has read the timer
+    exactly 1 + 4·400 = 1601 times -/
+theorem readings_consumed (j : Jitter.Rng) (rs : List U64) (r : Nat) (j' : Jitter.Rng) (rs' : List U64)
+    (h : (Jitter.testTimer j).run rs = some ((.ok r, j'), rs')) :
+    rs.length = rs'.length + 1601 ∧ (probes rs).length = 400 := by
+  obtain ⟨t0, rest, _, hcase⟩ := testTimer_some j rs _ j' rs' h
+  rcases hcase with ⟨e, _, hres⟩ | ⟨P, _, _, hl, hc⟩
+  · cases hres
+  · exact ⟨hc, hl⟩
+
+/-! ## non-vacuity -/
+
+/-- a timer script that passes: probe `i` starts at 1000·(i+1) and lasts 5 + (i² mod 23) -/
+def script : List U64 :=
+  1 :: (List.range 400).flatMap fun i =>
+    [BitVec.ofNat 64 (1000 * (i + 1)), 0, 0, BitVec.ofNat 64 (1000 * (i + 1) + 5 + i * i % 23)]
+
+/-- `test_timer` on it: `Ok(50)`, all 1601 readings consumed -/
+example : ((Jitter.testTimer Jitter.newWithTimer).run script).map
+    (fun r => (r.1.1.toOption, r.2.length)) = some (some 50, 0) := by
+  set_option maxRecDepth 1000000 in decide +kernel
+
+/-- the specification's quantities on it: mean 6 (three binary digits, 50·3 ≥ 128), nothing
+    backwards, no multiple of 100, 13 stuck probes -/
+example : (deltaSum script, mean script, bitlen (mean script), backwards script, mod100 script,
+    stuckCount script) = (2051, 6, 3, 0, 0, 13) := by
+  set_option maxRecDepth 1000000 in decide +kernel
+
+/-- a script whose every probe reads the same value twice fails with `CoarseTimer` at once -/
+example : ((Jitter.testTimer Jitter.newWithTimer).run [1, 7, 0, 0, 7]).map
+    (fun r => (r.1.1 matches .error .CoarseTimer, r.2.length)) = some (true, 0) := by
+  set_option maxRecDepth 100000 in decide +kernel
+
 end Rngs.C13
